@@ -372,8 +372,10 @@ class TelstateDataSource(DataSource):
         for key in telstate.keys():
             if telstate.key_type(key) == katsdptelstate.KeyType.MUTABLE:
                 sensor_name = _shorten_key(telstate, key)
-                if sensor_name:
-                    sensors[sensor_name] = TelstateSensorGetter(telstate, key)
+                # Look the sensor up by its short name, so that the view picks the most specific
+                # namespace if several of them define it (instead of the last key in sorted order)
+                if sensor_name and telstate.key_type(sensor_name) == katsdptelstate.KeyType.MUTABLE:
+                    sensors[sensor_name] = TelstateSensorGetter(telstate, sensor_name)
         metadata = AttrsSensors(telstate, sensors)
         if chunk_store is not None or timestamps is None:
             chunk_info = telstate['chunk_info']
